@@ -63,6 +63,15 @@ def run(ctx):
     from rules import c04
     c04.can_accept_rule(ctx, "C13.R5", core)
 
+    # ---------------- R6 the operator forms are reached for every list, the empty one included
+    ctx.rule("C13.R6", "`list via f`, `list where p` and `list into f` reach their own arm for every list: nothing in the list-scalar copy answers before the operator is dispatched (an empty-list shortcut would make `[] into f` differ from `f([])`)", floor=1)
+    from rules import c11 as c11_
+    from lib import binop as B_
+    try:
+        c11_.no_answer_before_dispatch(ctx, "C13.R6", B_.Copies(core))
+    except Exception as ex_:
+        ctx.inst("C13.R6", "list-scalar#no-answer-before-dispatch", None, "the operator copies could not be located: %s" % ex_, None)
+
     # ---------------- R1 definition / this pairing
     ctx.rule("C13.R1", "at every FunctionDef::call site the function definition comes from get_function_def(F) and the `this` argument is that same value F (so a named function sees itself under its own name)", floor=16)
     per_ctx = {}
